@@ -5,7 +5,9 @@ package main
 //     another package imported under a name, and then a selector on exactly the chosen name;
 //   - packagePathOrderLess is a strict total order, so the sorted list of required paths — the order in
 //     which conflicting names are renamed — is a function of the set of paths alone.
-// The body of updateImports (collection, alias precedence, name selection, block edits) is not decided.
+//   - updateImports, alias precedence: loop invariants of the two loops that compute effectiveAlias and
+//     an assertion at the head of the loop that follows them.
+// The rest of updateImports (collection, name selection, block edits) is not decided.
 
 import "strings"
 
@@ -28,11 +30,14 @@ func init() {
 				}
 				us = append(us, u)
 			}
+			us3, es3 := buildFuncUnits(p, []string{fr("updateImports")}, nil)
+			us, es = append(us, us3...), append(es, es3...)
 			us2, es2 := buildFuncUnits(p, []string{pkgDecorator + ".lemmaOrderIrreflexive", pkgDecorator + ".lemmaOrderAsymmetric", pkgDecorator + ".lemmaOrderTransitive", pkgDecorator + ".lemmaOrderTotal"}, nil)
 			return append(us, us2...), append(es, es2...)
 		},
 		Select: func(n string) bool {
-			return strings.Contains(n, "#imports:") || strings.Contains(n, "lemmaOrder") || strings.HasSuffix(n, "#ensures:plain_ident")
+			return strings.Contains(n, "#imports:") || strings.Contains(n, "lemmaOrder") || strings.HasSuffix(n, "#ensures:plain_ident") ||
+				strings.Contains(n, "updateImports#loop")
 		},
 		Siblings: "C03 C04 C05 C11 C12 (other labels of restoreNode/Ident)",
 		Assumptions: []string{
@@ -43,7 +48,6 @@ func init() {
 		NotDecided: []string{
 			"updateImports: that the import declarations contain each referenced path exactly once plus blank and cgo imports and nothing else",
 			"updateImports: names bound by ordinary imports are pairwise distinct (conflict / findAlias)",
-			"updateImports: alias precedence (restorer alias beats source alias beats resolved name)",
 			"updateImports: blocks that need no addition keep order and decorations",
 			"that the printed file type-checks",
 		},
